@@ -185,6 +185,11 @@ class ColumnInfo(Immutable):
         else:
             raise TypeError("categories must be None, list-like or dict-like")
 
+    @staticmethod
+    def _plain_categories(categories):
+        # A frozenmapping is not JSON serializable
+        return dict(categories) if isinstance(categories, frozenmapping) else categories
+
     @classmethod
     def create(
         cls,
@@ -284,7 +289,7 @@ class ColumnInfo(Immutable):
             'unit': self._unit.serialize(),
             'scale': self._scale,
             'continuous': self._continuous,
-            'categories': self._categories,
+            'categories': ColumnInfo._plain_categories(self._categories),
             'drop': self._drop,
             'datatype': self._datatype,
             'descriptor': self._descriptor,
@@ -946,7 +951,7 @@ class DataInfo(Sequence, Immutable):
                 "type": col.type,
                 "scale": col.scale,
                 "continuous": col.continuous,
-                "categories": col.categories,
+                "categories": ColumnInfo._plain_categories(col.categories),
                 "unit": str(col.unit),
                 "datatype": col.datatype,
                 "drop": col.drop,
